@@ -27,7 +27,8 @@
 (* the end, so every offending event is reported, with its rule):             *)
 (*   I2         an access to a flagged table made without its mutex (a site   *)
 (*              that does not follow Begin) and an access by another          *)
-(*              goroutine to the same table, one of them writing               *)
+(*              goroutine to the same part of the same table (name map, value  *)
+(*              slots, slot bank: Reads/Writes below), one of them writing     *)
 (*   Lock       the mutex of a table that is not flagged was held              *)
 (*   I1         after the event, a table two goroutines can name is flagged   *)
 (*   ForkSound  after Fork the handed chains are flagged (what Fork of the    *)
@@ -37,7 +38,7 @@
 EXTENDS SharedTables, Json
 
 VARIABLES l, run, bad,
-          hist,    \* [table -> [r, w, ur, uw]]: goroutines that read / wrote it; ..without the mutex though flagged
+          hist,    \* [table -> [r, w, ur, uw]]: <<goroutine, part>> read / written; ..without the mutex though flagged
           loose    \* accesses to flagged tables without the mutex, by site (reported, not judged)
 
 TraceLog == ndJsonDeserialize("trace.ndjson")
@@ -62,6 +63,19 @@ LReach(h) == IF h = <<>> THEN reach ELSE [x \in Tables \cup AllIds(h) |-> IF x \
 Cleared(h) == {x \in AllIds(h) \cap Tables : shared[x] /\ ~FlagOf(h, x)}
 Bad(rule, x) == [idx |-> l, run |-> run, rule |-> rule, t |-> x, g |-> Ev.g, e |-> Ev.e, f |-> Ev.f]
 NoHist == [r |-> {}, w |-> {}, ur |-> {}, uw |-> {}]
+
+(* what the functions of package symbols touch of a table: its name map "m",   *)
+(* its value slots "v", its slot bank "b" (SLOTS.md registers)                 *)
+Reads(f) == CASE f \in {"Get", "GetAnyScope", "GetLocal", "GetWithAttributes"} -> {"m", "v", "b"}
+              [] f = "Set" -> {"m", "v"}
+              [] f = "GetRegister" -> {"b"}
+              [] f = "SetRegister" -> {}
+              [] OTHER -> {"m"}
+Writes(f) == CASE f = "Set" -> {"v"}
+               [] f \in {"SetAlways", "SetWithAttributes", "SetConstant", "Create"} -> {"m", "v"}
+               [] f \in {"Delete", "SetReadOnly"} -> {"m"}
+               [] f = "SetRegister" -> {"b"}
+               [] OTHER -> {}
 HistOf(x) == IF x \in DOMAIN hist THEN hist[x] ELSE NoHist
 
 I1At(sh, rc, T) == {x \in T : Cardinality(rc[x]) >= 2 /\ ~sh[x]}
@@ -84,12 +98,15 @@ TAcc == /\ l <= N /\ Ev.e = "acc"
                rc == [LReach(h) EXCEPT ![Ev.t] = @ \cup {Ev.g}]
                o == HistOf(Ev.t)
                un == Ev.s /\ ~Ev.l                                  \* flagged, yet no mutex
-               others(S) == S \ {Ev.g}
-               clash == \/ un /\ (IF Ev.w THEN others(o.r \cup o.w) # {} ELSE others(o.w) # {})
-                        \/ (IF Ev.w THEN others(o.ur \cup o.uw) # {} ELSE others(o.uw) # {})
-               n == [r |-> IF Ev.w THEN o.r ELSE o.r \cup {Ev.g}, w |-> IF Ev.w THEN o.w \cup {Ev.g} ELSE o.w,
-                     ur |-> IF un /\ ~Ev.w THEN o.ur \cup {Ev.g} ELSE o.ur,
-                     uw |-> IF un /\ Ev.w THEN o.uw \cup {Ev.g} ELSE o.uw]
+               myR == Reads(Ev.f)
+               myW == Writes(Ev.f)
+               hits(S, cls) == \E p \in S : p[1] # Ev.g /\ p[2] \in cls      \* another goroutine touched one of cls
+               clash == \/ un /\ (hits(o.w, myR \cup myW) \/ hits(o.r, myW))
+                        \/ hits(o.uw, myR \cup myW) \/ hits(o.ur, myW)
+               mine(cls) == {<<Ev.g, c>> : c \in cls}
+               n == [r |-> o.r \cup mine(myR), w |-> o.w \cup mine(myW),
+                     ur |-> IF un THEN o.ur \cup mine(myR) ELSE o.ur,
+                     uw |-> IF un THEN o.uw \cup mine(myW) ELSE o.uw]
            IN /\ parent' = par /\ shared' = sh /\ reach' = rc
               /\ hist' = [x \in DOMAIN hist \cup {Ev.t} |-> IF x = Ev.t THEN n ELSE hist[x]]
               /\ loose' = IF un THEN loose \cup {[f |-> Ev.f, w |-> Ev.w]} ELSE loose
